@@ -32,6 +32,7 @@ type discOp struct {
 }
 
 type discovery struct {
+	Nested    []discCall // the collection is an ELEMENT of the argument and gets iterated itself
 	Calls     []discCall
 	Callbacks []discCb
 	Ops       []discOp
@@ -175,6 +176,40 @@ func discover(h *harness) *discovery {
 					t2 := strings.TrimSuffix(tmpl, ")") + strings.ReplaceAll(v, "CB", "{cb}")
 					d.Callbacks = append(d.Callbacks, discCb{Tmpl: t2, During: pr.cbInWindow > 0 && pr.cbOutside == 0})
 					break
+				}
+			}
+		}
+	}
+	// Built-ins that iterate the ELEMENTS of their argument (dict(pairs),
+	// d.update(pairs), zip(...), json.encode of nested values, ...): the probe
+	// is placed inside a wrapper; if Iterate is called on it, the construct is
+	// kept with the collection in the probe's place.
+	seenNested := map[string]bool{}
+	for _, c := range cals {
+		for p := 0; p <= 1; p++ {
+			for _, combo := range fillerCombos(p) {
+				for _, wrap := range []string{"[P]", "[(0, 1), P]", "(P, P)", "{0: P}"} {
+					args := strings.Join(append(append([]string(nil), combo...), wrap), ", ")
+					expr := c.prefix + "(" + args + ")"
+					iter := false
+					for _, fam := range []string{famInt, famStr} {
+						pr, _, _ := h.evalProbe(expr, fam)
+						d.Tried++
+						if pr.iterates > 0 {
+							iter = true
+							break
+						}
+					}
+					if !iter {
+						continue
+					}
+					key := c.prefix + "|" + wrap
+					if seenNested[key] {
+						continue // one filler combination per (callable, wrapper)
+					}
+					seenNested[key] = true
+					tmpl := c.prefix + "(" + strings.Join(append(append([]string(nil), combo...), strings.ReplaceAll(wrap, "P", "{x}")), ", ") + ")"
+					d.Nested = append(d.Nested, discCall{Tmpl: tmpl})
 				}
 			}
 		}
